@@ -262,7 +262,8 @@ def verify_unit(unit, digit, mode, canary=False, use_cache=True):
     path = os.path.join(vdir, tag + '.rs')
     open(path, 'w').write(text)
     res = run_verus(path, multiple_errors=(200 if canary else 8))
-    own = [it for it in g.items if it.entry.unit == unit and it.kind in ('fn', 'const', 'proof')]
+    own = [it for it in g.items if it.entry.unit == unit and it.kind in ('fn', 'const', 'proof') and not getattr(it, 'assumed', False)]
+    assumed_keys = sorted({it.key for it in g.items if it.kind in ('fn', 'const') and it.assumed})
     stubs_used = sorted(it.key for it in g.items if it.entry.unit != unit and it.kind in ('fn', 'const'))
     crate = tag
     items = []
@@ -322,7 +323,7 @@ def verify_unit(unit, digit, mode, canary=False, use_cache=True):
                verus_status=res['status'], verified=res.get('verified'), errors=res.get('errors'),
                ran_verification=bool(ran_verification), items=items, problems=problems,
                other_errors=others[:10], unattributed_failures=[f for f in failures if f['item'] is None or f['item'] not in {i.key for i in own}][:10],
-               stubs=stubs_used, stderr_tail=res.get('stderr_tail', ''),
+               stubs=stubs_used, assumed=assumed_keys, stderr_tail=res.get('stderr_tail', ''),
                n_lines=text.count('\n'))
     tmp = cpath + '.tmp%d' % os.getpid()
     json.dump(out, open(tmp, 'w'))
